@@ -51,6 +51,7 @@ class Verifier(Calls):
         self.frame = Frame(self.fi, None)
         self.call_depth = 0
         self.enum_done = set()
+        self.witnesses = {}
         self.cls_done = set()
         self.inputs = {}
         for hook in self.reg.path_init:
